@@ -811,6 +811,11 @@ def jobs_C18(tier, seed):
         jobs.append(job(f'fresh re-upload of a rewritten file {n1}->{n2}', s, {'sched': 1}, want, max_execs=100000))
         s = scn(copy.deepcopy(trs), dict(C), seed=seed, script='fresh', victims=[0], faults={'sites': ['s3:'], 'only_key': 0})
         jobs.append(job(f'fresh re-upload of a rewritten file {n1}->{n2} after a failed upload', s, {'sched': 0, 'env': 1}, want, max_execs=20000))
+    # the caller reuses ONE extra_args dictionary for all transfers of the manager
+    for rcc in ('when_supported', 'when_required'):
+        trs = [T_up('path', 3), T_dl('path', 'o5'), T_del('o4'), T_up('path', 7)]
+        s = scn(copy.deepcopy(trs), dict(C), seed=seed, script='fresh', shared_extra={'RequestPayer': 'requester'}, rcc=rcc)
+        jobs.append(job(f'one extra_args dict for all transfers {rcc}', s, {'sched': 1}, want, max_execs=100000))
     # two streamed downloads competing for a one-slot in-memory window: neither may strand the other
     CW = dict(C, max_in_memory_download_chunks=1)
     for script in ('shutdown', 'wait'):
